@@ -22,9 +22,10 @@ EXTENDS Integers, Sequences, FiniteSets, TLC
 CONSTANTS MaxN      \* control-flow machine: bound on N_max and on the Krylov dimension m
 
 VARIABLES pc,       \* program counter of the Lanczos machine
-          opt,      \* options of this run: [Nmax, Ncache, Nmin, reortho, m, conv]
+          opt,      \* options of this run: [Nmax, Ncache, Nmin, reortho, m, conv, shift]
                     \*   m    = dimension of the Krylov space of (H, psi0): beta_k = 0 exactly for k+1 = m
                     \*   conv = TRUE iff the convergence criterion may fire (P_tol > 0)
+                    \*   shift = TRUE iff option E_shift is set (H is wrapped in a ShiftNpcLinearOperator)
           k,        \* loop variable of _build_krylov / _rebuild_krylov_for_result_full
           cache,    \* self._cache : sequence of object ids
           w,        \* local w
@@ -60,21 +61,21 @@ Complete(o) == /\ o \in 1..Len(heap)
 
 Top == cache[Len(cache)]
 
-NoOpt == [Nmax |-> 0, Ncache |-> 0, Nmin |-> 0, reortho |-> FALSE, m |-> 0, conv |-> FALSE]
+NoOpt == [Nmax |-> 0, Ncache |-> 0, Nmin |-> 0, reortho |-> FALSE, m |-> 0, conv |-> FALSE, shift |-> FALSE]
 
 InitCF == /\ pc = "start" /\ opt = NoOpt /\ k = 0 /\ cache = <<>> /\ w = 0 /\ psif = 0
           /\ heap = <<>> /\ N = 0 /\ lc = 0 /\ ri = 0 /\ happ = <<>> /\ last = [op |-> "init"]
           /\ pl = [stage |-> "none"]
 
 \* KrylovBased.__init__ / LanczosGroundState.__init__: self.psi0 = psi0.copy() is object 1
-Start(nmax, ncache, nmin, reo, m, conv) ==
+Start(nmax, ncache, nmin, reo, m, conv, shift) ==
     /\ pc = "start"
-    /\ opt' = [Nmax |-> nmax, Ncache |-> ncache, Nmin |-> nmin, reortho |-> reo, m |-> m, conv |-> conv]
+    /\ opt' = [Nmax |-> nmax, Ncache |-> ncache, Nmin |-> nmin, reortho |-> reo, m |-> m, conv |-> conv, shift |-> shift]
     /\ heap' = <<Kry(0)>>
     /\ w' = 1 /\ k' = 0 /\ cache' = <<>> /\ psif' = 0 /\ N' = 0 /\ lc' = 0 /\ ri' = 0 /\ happ' = <<>>
     /\ pc' = "b_scale" /\ UNCHANGED pl
     /\ last' = [op |-> "Start", Nmax |-> nmax, Ncache |-> ncache, Nmin |-> nmin, reortho |-> reo,
-                m |-> m, conv |-> conv, psi0 |-> 1]
+                m |-> m, conv |-> conv, shift |-> shift, psi0 |-> 1]
 
 \* --- primitive effects -----------------------------------------------------
 DoScale(o) == heap' = [heap EXCEPT ![o].nrm = TRUE]                       \* iscale_prefactor(o, 1/norm)
@@ -127,8 +128,15 @@ BBreak == /\ pc = "b_test" /\ MayStop /\ N' = k + 1 /\ pc' = "r_run"
 BNext == /\ pc = "b_test" /\ ~MustStop /\ k' = k + 1 /\ DoScale(w) /\ pc' = "b_cache" /\ last' = EvScale(w)
          /\ UNCHANGED <<pl, opt, cache, w, psif, N, lc, ri, happ>>
 
+\* --- run(): E0 = Es[N-1, 0] is a Ritz value of H + E_shift:  `if self.E_shift is not None: E0 -= self.E_shift`
+\* comes before *both* return paths.  `applied` is what the harness observes on the returned energy: it is the Ritz value
+\* with the shift removed (vacuously TRUE without E_shift and for LanczosEvolution, which returns no energy).
+RUnshift == /\ pc = "r_run" /\ pc' = "r_unshifted"
+            /\ last' = [op |-> "Unshift", shift |-> opt.shift, applied |-> TRUE]
+            /\ UNCHANGED <<pl, opt, k, cache, w, psif, heap, N, lc, ri, happ>>
+
 \* --- run(): N == 1 returns psi0.copy() --------------------------------------
-RReturn1 == /\ pc = "r_run" /\ N = 1
+RReturn1 == /\ pc = "r_unshifted" /\ N = 1
             /\ heap' = Append(heap, Res(<<Term(0, 1)>>, TRUE))
             /\ psif' = Len(heap) + 1 /\ pc' = "done"
             /\ last' = [op |-> "Return", N |-> 1, res |-> Len(heap) + 1]
@@ -136,7 +144,7 @@ RReturn1 == /\ pc = "r_run" /\ N = 1
 
 \* --- _calc_result_full(N) ----------------------------------------------------
 \* psif = self.psi0 * vf[0]; len_cache = len(self._cache)
-RMul == /\ pc = "r_run" /\ N > 1
+RMul == /\ pc = "r_unshifted" /\ N > 1
         /\ heap' = Append(heap, Res(<<Term(0, 1)>>, FALSE))
         /\ psif' = Len(heap) + 1 /\ lc' = Len(cache) /\ ri' = 1
         /\ pc' = IF 1 < Min(Len(cache) + 1, N) THEN "r_cached" ELSE "r_clear"
@@ -186,12 +194,13 @@ RReturn == /\ pc = "r_ret" /\ pc' = "done" /\ last' = [op |-> "Return", N |-> N,
            /\ UNCHANGED <<pl, opt, k, cache, w, psif, heap, N, lc, ri, happ>>
 
 DoStart == \E nmax \in 1..MaxN, ncache \in 2..(MaxN + 1), nmin \in {2, 4}, reo \in BOOLEAN,
-              m \in 1..(MaxN + 1), conv \in BOOLEAN :
+              m \in 1..(MaxN + 1), conv \in BOOLEAN, shift \in BOOLEAN :
+              /\ (shift => ~reo /\ ~conv)        \* the shift only matters in run(): no need to cross it with everything
               /\ (conv \/ nmin = 2) /\ m <= nmax + 1 /\ ncache <= Max(2, nmax + 1)   \* larger values behave alike
-              /\ Start(nmax, ncache, nmin, reo, m, conv)
+              /\ Start(nmax, ncache, nmin, reo, m, conv, shift)
 
 NextCF == \/ DoStart \/ BScale \/ BCache \/ BMatvec \/ BAlpha \/ BReortho \/ BBeta \/ BBreak \/ BNext
-          \/ RReturn1 \/ RMul \/ RCached \/ RClear
+          \/ RUnshift \/ RReturn1 \/ RMul \/ RCached \/ RClear
           \/ QCache \/ QMatvec \/ QAlpha \/ QReortho \/ QBeta \/ QScale \/ QAdd \/ RNorm \/ RReturn
 
 SpecCF == InitCF /\ [][NextCF]_<<cfvars, pl>>
@@ -232,6 +241,8 @@ EachKrylovIndexUsedOnce ==
         /\ Len(heap[psif].terms) = N
         /\ {heap[psif].terms[i].c : i \in 1..N} = 0..(N - 1)
 ResultNormalised == pc = "done" => heap[psif].nrm /\ last.op = "Return" /\ last.res = psif
+\* no return path of run() skips the removal of E_shift from the energy
+EnergyUnshifted == (last.op \in {"Return", "Mul"}) => pc \notin {"r_run"}
 \* memory: besides psi0 and psif at most N_cache + 1 Krylov vectors are alive
 StopRight == N > 0 => /\ N <= opt.Nmax /\ N <= opt.m
                       /\ (~opt.conv => N = Min(opt.Nmax, opt.m))
@@ -275,6 +286,7 @@ AValsSmall == {<<0, 0>>, <<1, 0>>, <<1, 1>>}
 AValsOne == {<<1, 0>>}
 AValsBig   == {<<0, 0>>, <<1, 0>>, <<-1, 0>>, <<0, 1>>, <<2, 0>>, <<1, 1>>, <<1, -2>>}
 SigmasSmall == {0, 3}
+SigmasPM   == {0, 3, -4}
 SigmasBig  == {0, 3, -4, 1}
 GsValsSmall == {0, 1}
 GsValsBig  == {-1, 0, 1, 2}
